@@ -12,7 +12,9 @@
      "rt"   round trips: x, backward(forward(x))       -> relative 1e-6
      "mono" forward on an increasing grid               -> non-decreasing
      "jac"  f(x-2h), f(x-h), f(x+h), f(x+2h), J(x), h = 2^k  -> J > 0 and
-            (8 (f(+h) - f(-h)) - (f(+2h) - f(-2h))) = 12 h J   within 1e-4 *)
+            (8 (f(+h) - f(-h)) - (f(+2h) - f(-2h))) = 12 h J   within 1e-4
+     "jbranch" J at a point where the formula changes branch (0 for BoxCox2sym, nu + scale x = 0 for Yeo-Johnson) and at
+            b -/+ 2^-30 max(1,|b|)  -> J(b) > 0 and within 1e-3 of both neighbours (the derivative is continuous there) *)
 EXTENDS Integers, Sequences, TLC, Json, IOUtils
 TLog == ndJsonDeserialize(IOEnv.TRACE_FILE)
 VARIABLE dummy
@@ -30,6 +32,7 @@ Sub(a, b) == LET al == Align(a, b) IN <<al[1] - al[2], al[3]>>
 Leq(a, b) == LET al == Align(a, b) IN al[1] <= al[2] + 1              \* one unit of slack for the truncated bits
 \* |a - b| <= ppm * 1e-6 * max(|a|, |b|)   (+ 2 units of truncation)
 Close(a, b, ppm) == LET al == Align(a, b) IN Abs(al[1] - al[2]) <= (Max(Abs(al[1]), Abs(al[2])) * ppm) \div 1000000 + 2
+Close1e3(a, b) == LET al == Align(a, b) IN Abs(al[1] - al[2]) <= Max(Abs(al[1]), Abs(al[2])) \div 1000 + 2
 Clause(t, name, cond) == cond \/ (PrintT(<<"REJECT", t, name>>) /\ FALSE)
 \* stencil: N = 8 (f3 - f2) - (f4 - f1) against D = 12 * h * J, all aligned to one exponent
 Stencil(r) ==
@@ -51,6 +54,8 @@ Accept(t) == LET r == TLog[t] IN
    ELSE CASE r.kind = "rt" -> Clause(t, "round-trip-1e-6", \A i \in 1..Len(r.x) : Close(r.x[i], r.xb[i], 1))
           [] r.kind = "mono" -> Clause(t, "forward-increasing", \A i \in 1..(Len(r.y) - 1) : Leq(r.y[i], r.y[i + 1]))
           [] r.kind = "jac" -> JacOK(t, r)
+          [] r.kind = "jbranch" -> /\ Clause(t, "jacobian-positive", r.J0[1] > 0)
+                                   /\ Clause(t, "jacobian-continuous-at-branch-point", Close1e3(r.J0, r.Jm) /\ Close1e3(r.J0, r.Jp))
 ASSUME \A t \in 1..Len(TLog) : Accept(t) \/ TRUE
 ASSUME PrintT(<<"INCONCLUSIVE", Len(SelectSeq(TLog, LAMBDA r : ~r.bad /\ Inconclusive(r)))>>)
 ASSUME PrintT(<<"VALIDATED", Len(TLog)>>)
